@@ -49,7 +49,7 @@ def eval_cover(ctx):
         def run():
             if name == "string":
                 for r, lim, pz, u8 in stringx.string_cases(ctx):
-                    out = stringx.evaluate(ctx, "string", r, lim, pz, u8 is not False, padded=(u8 != "unpadded"))
+                    out = stringx.evaluate(ctx, "string", r, lim, pz, u8 is not False, padded=(u8 != "unpadded"), multibyte=(u8 == "multibyte"))
                     if "panic" in out:
                         return "string(bytes left=%d, limit=%s, first NUL at %s): %s" % (r, lim, pz, out["panic"])
                 return None
